@@ -2,3 +2,4 @@ import Pathrs.Proofs.Props.C05
 import Pathrs.Proofs.Props.C15
 import Pathrs.Proofs.Props.C16
 import Pathrs.Proofs.Props.C17
+import Pathrs.Proofs.Props.C18
